@@ -146,8 +146,11 @@ impl HttpState {
         HttpState { flows: ttl_cache::TtlCache::new(cap), procs: huginn_net_http::http_process::HttpProcessors::new() }
     }
     pub fn feed(&mut self, f: &[u8], with_matcher: bool) -> Result<huginn_net_http::HttpAnalysisResult, String> {
+        self.feed_db(f, if with_matcher { Some(default_db()) } else { None })
+    }
+    pub fn feed_db(&mut self, f: &[u8], db: Option<&Database>) -> Result<huginn_net_http::HttpAnalysisResult, String> {
         use huginn_net_http::packet_parser::{parse_packet, IpPacket};
-        let m = if with_matcher { Some(huginn_net_http::SignatureMatcher::new(default_db())) } else { None };
+        let m = db.map(huginn_net_http::SignatureMatcher::new);
         match parse_packet(f) {
             IpPacket::Ipv4(p) => huginn_net_http::process::process_ipv4_packet(&p, &mut self.flows, &self.procs, m.as_ref()).map_err(|e| e.to_string()),
             IpPacket::Ipv6(p) => huginn_net_http::process::process_ipv6_packet(&p, &mut self.flows, &self.procs, m.as_ref()).map_err(|e| e.to_string()),
